@@ -90,8 +90,7 @@ pub fn run_history(h: &History, out: &mut Out) {
             let check = |what: &str, path: &[Pos], lens: &[f64], pts: &[rosu_map::section::hit_objects::PathControlPoint], len: Option<f64>, fails: &mut Vec<(String, String)>| {
                 let reference = Curve::new(mode, pts, len, &mut CurveBuffers::default());
                 if !same(path, lens, &reference) {
-                    // D7: an empty control-point list returns whatever path the buffers still hold
-                    let class = if pts.is_empty() && !path.is_empty() { "D7" } else { "" };
+                    let class = "";
                     fails.push((
                         class.to_string(),
                         format!("op #{} {}: got {} vertices / dist {:?}, a fresh computation gives {} vertices / dist {:?}", n, what, path.len(), lens.last(), reference.path().len(), reference.lengths().last()),
@@ -188,13 +187,6 @@ pub fn run_history(h: &History, out: &mut Out) {
     }
     out.oracle_checks += checks;
     for (class, det) in fails {
-        if class == "D7" {
-            out.count("oracle:D7");
-            // Out keeps at most 200 failures: do not let the known class crowd out others
-            if out.dist.get("oracle:D7").copied().unwrap_or(0) > 25 {
-                continue;
-            }
-        }
         out.fail(&class, &desc, &det);
     }
     out.count(&format!("history-length:{}", (h.ops.len() + 4) / 5 * 5));
@@ -221,7 +213,7 @@ pub fn generate(tier: &str, seed: u64, out: &mut Out) {
     let thorough = tier == "thorough";
     let lens = vec![None, Some(7.5), Some(80.0)];
 
-    // ---- corpus: D7 -- a borrowed computation, then an empty list
+    // ---- corpus: a borrowed computation, then an empty list (the repaired D7 scenario)
     run_history(
         &History { mode: 0, pool: small_pool(), lens: lens.clone(), ops: vec![Op::Borrowed(1, 0), Op::Borrowed(0, 0), Op::Owned(0, 1)] },
         out,
